@@ -90,6 +90,9 @@ def shapes(tier):
     # very large address spaces (the arithmetic is width-agnostic; values above 2**53 do not survive a float)
     s.append(M(60, 32, 0, W(M(56, 32, 0, R(), R("imp"))), R("imp")))
     s.append(M(58, 32, 0, R("imp"), W(M(59, 8, 2, R(), R("imp")), sparse=False, mode="imp")))
+    # the narrowest data widths there are: 1-bit maps, and a 1-bit map densely behind a 2-bit one
+    s.append(M(4, 1, 0, R(), W(M(2, 1, 0, R(), R("imp")))))
+    s.append(M(3, 2, 0, R("imp"), W(M(3, 1, 1, R(), R("imp")), sparse=False)))
     if tier == "thorough":
         s.append(M(6, 32, 4, W(M(3, 32, 2, W(M(1, 8, 0, R()), sparse=True, name=False), R("imp")), name=True), R("imp")))
         s.append(M(5, 32, 0, R(), W(leaf32(R(), R())), W(M(3, 16, 1, R()), sparse=False)))
